@@ -422,6 +422,19 @@ def c20_integer_support_truncates_parameters():
     return ok, f"Poisson.pmf(arange(6), 2.5) = {[round(float(x), 4) for x in a]} but with float counts {[round(float(x), 4) for x in b]} (the rate was truncated to 2)"
 
 
+def c13_value_none_assignment():
+    """C13/C01: assigning None (or an empty tensor) to RecordTensor.value de-initialises the storage and rewinds the pointer."""
+    from inferno import RecordTensor, Module
+    m = Module()
+    r = RecordTensor(m, "r", 1.0, 2.0, torch.zeros(2))
+    r.push(torch.ones(2))
+    try:
+        r.value = None
+    except Exception as e:
+        return False, f"`record.value = None` raised {type(e).__name__}: {e} (value is now {r.value}, pointer {r.pointer})"
+    return r.value is None and r.pointer == 0, f"value {r.value}, pointer {r.pointer}"
+
+
 def c20_lognormal_logcdf():
     """C20: log-CDF equals log of the CDF."""
     try:
